@@ -42,6 +42,16 @@ def r1(ctx, F, hub):
         # request path is the directory itself ("", ".", "./")
         climbs = SIBLING in labels and c != 'std::fs::create_dir_all'
         labels2 = labels - {SIBLING}
+        walk = hub.ancestor_walk_bound(b, op) if climbs else None
+        if walk is not None:
+            # a walk up the ancestors of a request path (pruning emptied directories): it stays inside the tree only if it climbs
+            # at most as many levels as the NORMALISED path has below the root - `a//////f` has many separators and one level
+            if walk[0] == 'components':
+                ctx.undecided('C11.R1', '%s: %s walks up the parents of a request path, limited by the number of its components: that the limit is below the served root is not decided' % (key, c.split('::')[-1]))
+                continue
+            ctx.bad('C11.R1', key + ':walk-above-the-root', 'fs call %s is applied to the parents of a request path and %s: repeated separators or `.` components make the walk climb '
+                    'past the served directory (`a//////f` has six separators and one level)' % (c, walk[1]), term_loc(b, bb))
+            continue
         if OTHER in labels and TAINT not in labels and not climbs:
             # part of the value has a provenance the labelling does not follow (a struct mutated through a helper, a value
             # from outside the serve graph): nothing client-controlled was seen in it, nothing proves it clean either
